@@ -676,7 +676,7 @@ class Interp:
             else:
                 env.locals[t.id] = v
         elif isinstance(t, ast.Attribute):
-            self.setattr(self.eval(t.value, env), t.attr, v)
+            self.setattr(self.eval(t.value, env), self._mangle(t.attr, env), v)
         elif isinstance(t, ast.Subscript):
             self.setitem(self.eval(t.value, env), self.eval_slice(t.slice, env), v)
         elif isinstance(t, (ast.Tuple, ast.List)):
@@ -914,9 +914,10 @@ class Interp:
 
     def e_Set(self, e, env):
         xs = self._elts(e.elts, env)
-        if is_symbolic(xs):
+        if is_symbolic(xs) and not all(isinstance(x, SV) or not is_symbolic(x) for x in xs):
             raise Unsupported("set display with symbolic elements")
-        return set(xs)
+        # a display of scalars (possibly symbolic): membership tests compare element-wise (Interp.contains)
+        return set(xs) if not is_symbolic(xs) else list(xs)
 
     def _elts(self, elts, env):
         out = []
@@ -1020,6 +1021,8 @@ class Interp:
             b = b.value
         if op is ast.Add and (isinstance(a, SymStr) or isinstance(b, SymStr)):
             return SymStr((a, b))
+        if op is ast.Mod and isinstance(a, str) and is_symbolic(b):
+            return SymStr((a, b))     # old-style formatting of a message with symbolic parts
         if (isinstance(a, NativeModel) or isinstance(b, NativeModel)) and not isinstance(a, (SymStr,)) and not isinstance(b, (SymStr,)):
             nm = {ast.Add: "add", ast.Sub: "sub", ast.Mult: "mul", ast.Div: "truediv"}.get(op)
             if nm is not None:
@@ -1271,8 +1274,22 @@ class Interp:
             return SV(z3.Or(*terms), "bool")
         raise Unsupported("`in` on %s with symbolic operand" % type(container).__name__)
 
+    @staticmethod
+    def _mangle(attr, env):
+        """private name mangling inside a class body: self.__x -> self._Class__x"""
+        if attr.startswith("__") and not attr.endswith("__"):
+            cname = env.defcls.__name__ if env.defcls is not None else None
+            if cname is None:
+                q = getattr(env, "qualname", None) or ""
+                q = q.split(":", 1)[-1]
+                if "." in q:
+                    cname = q.rsplit(".", 1)[0].split(".")[-1]
+            if cname and cname != "<locals>":
+                return "_%s%s" % (cname.lstrip("_"), attr)
+        return attr
+
     def e_Attribute(self, e, env):
-        return self.getattr(self.eval(e.value, env), e.attr)
+        return self.getattr(self.eval(e.value, env), self._mangle(e.attr, env))
 
     def getattr(self, obj, attr):
         if isinstance(obj, SymObj):
@@ -1309,6 +1326,8 @@ class Interp:
         m = self.models.find("sym:%s.%s" % (type(obj).__name__, attr))
         if m is not None:
             return _Partial(m, obj)
+        if isinstance(obj, SymMap) and attr in ("pop", "get"):
+            return _Partial(_symmap_pop if attr == "pop" else _symmap_get, obj)
         raise Unsupported("attribute %s of symbolic %s" % (attr, type(obj).__name__))
 
     def sym_getattr(self, obj, attr):
@@ -1407,6 +1426,8 @@ class Interp:
     def map_dom(self, m, k):
         """z3 Bool / bool: k in m (with overlay)."""
         cur = m.dom(k)
+        if not m.overlay and not isinstance(cur, bool):
+            self.path.assume(z3.Implies(cur, z3.Bool("nonempty!%s!%d" % (m.label, m.uid))))
         for (wk, wv) in m.overlay:
             eq = key_eq(wk, k)
             if isinstance(eq, bool):
@@ -1634,6 +1655,31 @@ def _has_sv(x, depth=4):
     if depth > 0 and isinstance(x, (tuple, list, set, frozenset)):
         return any(_has_sv(y, depth - 1) for y in x)
     return False
+
+
+_MISSING = object()
+
+
+def _symmap_pop(interp, args, kw):
+    m, key = args[0], args[1]
+    default = args[2] if len(args) > 2 else _MISSING
+    d = interp.map_dom(m, key)
+    if interp.path.branch(d):
+        v = interp.map_get(m, key)
+        m.overlay.append((key, SymMap.DELETED))
+        interp.path.writes.append((m, key, SymMap.DELETED))
+        return v
+    if default is _MISSING:
+        raise PyRaise(KeyError((m.label, key)))
+    return default
+
+
+def _symmap_get(interp, args, kw):
+    m, key = args[0], args[1]
+    default = args[2] if len(args) > 2 else None
+    if interp.path.branch(interp.map_dom(m, key)):
+        return interp.map_get(m, key)
+    return default
 
 
 class _NoOp:
